@@ -26,6 +26,11 @@ class BuiltinMixin:
         ext = self.stubs.get(name) or self.stubs.get(name.replace("ext:", ""))
         if isinstance(ext, dsl.External):
             return self.call_external(ext, name, args, line)
+        if isinstance(ext, dsl.Uninterpreted):
+            # an external function assumed to be a (deterministic, effect-free) function of its arguments
+            ctx.assumptions_used.add(f"external callee {name} is a deterministic function of its arguments without effects")
+            from .values import UninterpV
+            return self.call(UninterpV(ext), args, {}, line)
         handler = getattr(self, "b_" + name.replace(".", "_").replace(":", "_"), None)
         if handler is not None:
             return handler(args, kwargs, line)
